@@ -89,7 +89,7 @@ add("C03", "exploration", [
     {"name": "c03-random", "bin": "exec", "pkg": "./exec", "run": "^TestVerifC03EvalRandom$", "tool": "go1.26.8",
      "shards": {"quick": 8, "thorough": 16}, "checks": {"quick": 1500, "thorough": 60000},
      "timeout": {"quick": 600, "thorough": 3000}},
-    {"name": "c03-enum", "bin": "exec", "pkg": "./exec", "run": "^TestVerifC03(EvalEnum|KnownS5)$", "tool": "go1.26.8",
+    {"name": "c03-enum", "bin": "exec", "pkg": "./exec", "run": "^TestVerifC03(EvalEnum|EvalLossEnum|KnownS5)$", "tool": "go1.26.8",
      "shards": {"quick": 8, "thorough": 16}, "timeout": {"quick": 600, "thorough": 3000}},
 ])
 
